@@ -3,7 +3,7 @@
    [sel] is the list-level model of Select (Eval.v): the sequence of nodes the
    iterator hands out.  [flat_query] (Proofs/DocOrder.v) = a chain of child,
    attribute and self steps from the context node or the root. *)
-From Coq Require Import List Sorted.
+From Coq Require Import List Sorted ZArith.
 From XP Require Import Base Doc Ast Eval.
 From XP.Proofs Require Import DocOrder.
 
@@ -63,3 +63,58 @@ Theorem C12_sorted_unique : forall l1 l2,
   sorted_doc l1 -> sorted_doc l2 -> (forall x, In x l1 <-> In x l2) -> l1 = l2.
 Proof. exact sorted_doc_unique. Qed.
 Print Assumptions C12_sorted_unique.
+
+(* ---- count(), reverse(), Evaluate vs Select (Proofs/CountReverse.v) ---- *)
+From XP Require Import Api.
+From XP.Proofs Require Import CountReverse.
+
+(* count(E) is the length of E's sequence, for every node-set expression E *)
+Theorem C12_count_is_length : forall D has_ns hcode rm rn rr a c l,
+  eval D has_ns hcode rm rn rr a c = Val (VNodes l) ->
+  eval D has_ns hcode rm rn rr (QFn1 FCount a) c = Val (VNum (F64.of_Z (Z.of_nat (List.length l)))).
+Proof. exact count_is_length. Qed.
+Print Assumptions C12_count_is_length.
+
+(* reverse(E) yields E's sequence reversed *)
+Theorem C12_reverse : forall D has_ns hcode rm rn rr i c r l,
+  sel D has_ns hcode rm rn rr (QReverse i) c = Val r -> sel D has_ns hcode rm rn rr i c = Val l ->
+  nodes_of r = rev (nodes_of l).
+Proof. exact reverse_is_rev. Qed.
+Print Assumptions C12_reverse.
+
+(* Evaluate returns an iterator over the same sequence as Select *)
+Theorem C12_evaluate_same_sequence : forall rm rn rr hcode D has_ns q c ns,
+  Absolute.nodeset_query q = true -> select rm rn rr hcode D has_ns q c = Val ns ->
+  evaluate rm rn rr hcode D has_ns q c = Val (VNodes (unnumbered ns)).
+Proof. exact evaluate_same_sequence. Qed.
+Print Assumptions C12_evaluate_same_sequence.
+
+(* ---- the iterator protocol at CURSOR level (Model1/Iter.v: the Go Select /
+   Evaluate / Clone methods of context, absolute, child, attribute, self, parent,
+   descendant and filter queries transliterated as state machines over the
+   navigator operations; Proofs/IterRefine.v) ---- *)
+From XP.Model1 Require Import Iter.
+From XP.Proofs Require Import IterRefine.
+
+(* the machine, run from a fresh / cloned / re-Evaluated state, hands out exactly
+   the list-level sequence, node for node with the same position counters *)
+Theorem C12_cursor_level_refines_list_level : forall D has_ns hc rm rn rr q Q c l F n,
+  corr D has_ns hc rm rn rr q Q -> sel D has_ns hc rm rn rr Q c = Val l ->
+  need D (match_test D has_ns) q c <= F -> List.length l < n ->
+  drain_items D (match_test D has_ns) F n (fresh q) c = l /\
+  drain D (match_test D has_ns) F n (fresh q) c = nodes_of l.
+Proof. exact m1_refines_list. Qed.
+Print Assumptions C12_cursor_level_refines_list_level.
+
+(* MoveNext keeps returning false once it has returned false: from ANY state *)
+Theorem C12_exhaustion_stable : forall D tst F st cur st' cur',
+  1 <= F -> select1 D tst F st cur = R None st' cur' ->
+  forall cur2, exists st'', select1 D tst F st' cur2 = R None st'' cur2.
+Proof. exact exhausted_stable. Qed.
+Print Assumptions C12_exhaustion_stable.
+
+(* Select never moves the shared context node (with the repair 08a4038) *)
+Theorem C12_context_preserved : forall D tst F st cur o st' cur',
+  select1 D tst F st cur = R o st' cur' -> cur' = cur /\ config_of st' = config_of st.
+Proof. exact context_preserved. Qed.
+Print Assumptions C12_context_preserved.
